@@ -22,10 +22,10 @@ func init() {
 	ev.Register(&ev.Check{
 		ID:             "C13",
 		Level:          "exploration",
-		Rule:           "schemas: accepted AND rejected canonical cases (34 rule slots x 13 contexts incl. corruptions, C03 construct families, C08 rule sets of <= 2 rules on 10 node kinds) x the FULL product of spelling dimensions: line end {LF,CRLF,CR} x indentation {none,2 spaces,tab} x user comments {none,# at line ends,### blocks} x annotation form {inline, /* */ one line, /* */ three lines} x rule names {bare,quoted} x trailing comma {no,yes} (324 spellings) + note variants + all rule permutations (<= 3 rules): Check verdict, AST (comments blanked) and the verdict of every probe document must equal the canonical spelling's. documents: each probe x {compact, spaced, newline-heavy, CRLF} x all property permutations (<= 3 keys) x string spellings {plain, \\uXXXX for every char, \\/}: verdict equal under every schema. Entirely reference-free (metamorphic). Non-trivial = distinct (schema, spelling) or (schema, document spelling).",
+		Rule:           "schemas: accepted AND rejected canonical cases (34 rule slots x 13 contexts incl. corruptions, C03 construct families, C08 rule sets of <= 2 rules on 10 node kinds) x the FULL product of spelling dimensions: line end {LF,CRLF,CR} x indentation {none,2 spaces,tab} x user comments {none,# at line ends,### blocks} x annotation form {inline, /* */ one line, /* */ three lines} x rule names {bare,quoted} x trailing comma {no,yes} (324 spellings; a # comment also follows inline annotations and notes) + notes added under the full product of line end x comments x annotation form (27 spellings) + all rule permutations (<= 3 rules): Check verdict, AST (comments blanked) and the verdict of every probe document must equal the canonical spelling's. documents: each probe x {compact, spaced, newline-heavy, CRLF} x all property permutations (<= 3 keys) x string spellings {plain, \\uXXXX for every char, \\/}: verdict equal under every schema. Entirely reference-free (metamorphic). Non-trivial = distinct (schema, spelling) or (schema, document spelling).",
 		Run:            run,
 		Replay:         replay,
-		QuickBudget:    85 * time.Second,
+		QuickBudget:    150 * time.Second,
 		ThoroughBudget: 14 * time.Minute,
 		Assumptions:    []string{"comments inside rule objects or between a key and its colon, and intra-line blanks inside empty brackets, are not in the statement's list and are not generated"},
 	})
@@ -214,6 +214,22 @@ func orSetFamily(f func(sc.Case)) {
 	}
 }
 
+// noteSpellings: the line-level dimensions (line end x user comments x annotation
+// form) in full product, the token-level ones alternating.
+var noteSpellings = func() []gen.Spelling {
+	var out []gen.Spelling
+	i := 0
+	for _, eol := range []string{"\n", "\r\n", "\r"} {
+		for cm := 0; cm < 3; cm++ {
+			for ml := 0; ml < 3; ml++ {
+				out = append(out, gen.Spelling{EOL: eol, Indent: []string{"  ", "\t", ""}[i%3], Comments: cm, MultiLine: ml, QuoteNames: i%2 == 1, TrailComma: i%4 >= 2})
+				i++
+			}
+		}
+	}
+	return out
+}()
+
 func hasNote(cs sc.Case) bool {
 	found := false
 	cs.Root.Walk(func(n *gen.Node) { found = found || n.Note != "" })
@@ -257,7 +273,7 @@ func run(c *ev.Ctx) {
 				n.Note = "a note"
 			}
 		})
-		for _, sp := range []gen.Spelling{gen.Canonical, {EOL: "\r\n", Indent: "\t", MultiLine: 1, QuoteNames: true}, {EOL: "\n", Indent: "", MultiLine: 2, TrailComma: true}} {
+		for _, sp := range noteSpellings {
 			o := observe(withNote.SpecWith(sp), docs, false)
 			c.Eval(true)
 			if d := diff(base, o, docs, true); d != "" {
